@@ -53,8 +53,8 @@ pub fn string(r: &mut Rng) -> String {
     match r.below(10) {
         0..=5 => (*r.pick(WORDS)).to_string(),
         6 => {
-            // long string: crosses the 1-byte / 2-byte compact length boundary (64)
-            let n = *r.pick(&[63usize, 64, 65, 200]);
+            // long string: crosses the 1-byte / 2-byte compact length boundary (64); now and then one byte count beyond u8
+            let n = if r.chance(1, 12) { *r.pick(&[255usize, 256, 257, 1000]) } else { *r.pick(&[63usize, 64, 65, 200]) };
             "s".repeat(n)
         }
         7 => {
@@ -144,8 +144,26 @@ pub fn typedef(r: &mut Rng, idf: &mut dyn FnMut(&mut Rng) -> u32, wild: bool) ->
         }
     }
 }
+/// paths of real library types: code that special-cases a definition by its path sees them too
+const KNOWN_PATHS: &[&[&str]] = &[
+    &["bitvec", "order", "Lsb0"],
+    &["bitvec", "order", "Msb0"],
+    &["Option"],
+    &["Result"],
+    &["PhantomData"],
+    &["Cow"],
+    &["BTreeMap"],
+    &["Range"],
+    &["RangeInclusive"],
+    &["Duration"],
+    &["core", "marker", "PhantomData"],
+];
 pub fn ty(r: &mut Rng, idf: &mut dyn FnMut(&mut Rng) -> u32, wild: bool) -> Type<PortableForm> {
-    let path = Path::from_segments_unchecked(strings(r, 3));
+    let path = if !small() && r.chance(1, 8) {
+        Path::from_segments_unchecked(r.pick(KNOWN_PATHS).iter().map(|s| s.to_string()))
+    } else {
+        Path::from_segments_unchecked(strings(r, 3))
+    };
     let np = if r.chance(1, 2) { 0 } else { count(r, if small() { 1 } else { 3 }) };
     let params = (0..np)
         .map(|_| {
